@@ -34,7 +34,7 @@ fn plan(tier: Tier) -> Vec<Unit> {
             let mut v = crate::util::split_budget("pairs", 60_000_000, 20_000);
             v.extend(crate::util::split_budget("small", 301, 7));
             v.extend(crate::util::split_budget("zero", 1_000_000, 5_000));
-            v.extend(crate::util::split_budget("quot", 6_000_000, 10_000));
+            v.extend(crate::util::split_budget("quot", 2_000_000, 10_000));
             v.extend(crate::util::split_budget("words", WORDS.len() as u64 * 6, 6));
             v
         }
